@@ -26,6 +26,7 @@ type expirySubject interface {
 	report(ids []string) (invalid []string, active []string, err error) // X's keep-alive
 	idOf(i int) string
 	unknownID(k int) string
+	manyUnknown(k int) string // any number of distinct ids the pool does not know
 	close()
 }
 
@@ -37,6 +38,7 @@ type storeSubject struct {
 
 func (s *storeSubject) idOf(i int) string      { return s.ids[i] }
 func (s *storeSubject) unknownID(k int) string { return fmt.Sprintf("unknown%d", k) }
+func (s *storeSubject) manyUnknown(k int) string { return fmt.Sprintf("stranger%d", k) }
 func (s *storeSubject) close()                 { s.st.Close() }
 func (s *storeSubject) register(i int) error {
 	return s.st.SetNode(store.Node{ID: store.NodeID(s.ids[i]), LastSeen: time.Now(), IsHost: i != 0, Kind: "geth", URI: "enode://" + s.ids[i] + "@192.0.2.1:30303"})
@@ -71,6 +73,7 @@ type poolSubject struct {
 
 func (p *poolSubject) idOf(i int) string      { return p.s.agents[i].id.nodeID }
 func (p *poolSubject) unknownID(k int) string { return nodeIdent(8 + k%2).nodeID }
+func (p *poolSubject) manyUnknown(k int) string { return hexID(5000 + k) }
 func (p *poolSubject) close()                 { p.s.close() }
 func (p *poolSubject) register(i int) error {
 	return p.s.connect(i, p.s.openConn(i, ""), i != 0, "geth", "")
@@ -240,6 +243,17 @@ func c11Case(rt *rapid.T, rec *vt.Rec) {
 					}
 				}
 			}
+			// a well-connected node: the members of the pool come after a long list of connections the pool does not know
+			pad := 0
+			if op != "round" && rapid.IntRange(0, 7).Draw(rt, "longReport") == 0 {
+				pad = rapid.IntRange(120, 300).Draw(rt, "unknownFirst")
+				long := make([]string, 0, pad+len(ids))
+				for k := 0; k < pad; k++ {
+					long = append(long, sub.manyUnknown(k))
+				}
+				ids = append(long, ids...)
+				classes["long-report"] = true
+			}
 			now := time.Now()
 			lastSeen[sub.idOf(0)] = now
 			reported := map[string]bool{}
@@ -269,7 +283,7 @@ func c11Case(rt *rapid.T, rec *vt.Rec) {
 				}
 			}
 			inv, act, err := sub.report(ids)
-			logf("X reports %v -> invalid %v, active %v, err=%v   (model: must-invalid %v, boundary %v)", namesOf(ids), namesOf(inv), namesOf(act), err, namesOf(must), namesOf(either))
+			logf("X reports (%d unknown ids, then) %v -> invalid %v, active %v, err=%v   (model: must-invalid %v, boundary %v)", pad, namesOf(ids[pad:]), namesOf(inv), namesOf(act), err, namesOf(must), namesOf(either))
 			if err != nil {
 				fail("X's keep-alive failed: %v", err)
 			}
